@@ -269,6 +269,39 @@ func VerifRTCases(pairs bool) []VerifRTCase {
 				}
 			}
 		}
+		// a value that has been through a conversion once is still only a value: a field edited
+		// afterwards must arrive on the other side (nothing may answer from a copy kept from before)
+		for _, f := range names {
+			c := VerifRTCase{Type: t.name, Pattern: "edit-after-conversion:" + f}
+			in := t.mk()
+			for _, g := range names {
+				fillSentinel(in.Elem().FieldByName(g), 0)
+			}
+			func() {
+				defer func() {
+					if e := recover(); e != nil {
+						c.Fails = append(c.Fails, fmt.Sprintf("panic: %v", e))
+					}
+				}()
+				o := t.rt(in)
+				if o.Kind() == reflect.Ptr && o.IsNil() {
+					return // reported by all-set
+				}
+				fillSentinel(o.Elem().FieldByName(f), 0)
+				o2 := t.rt(o)
+				if o2.Kind() == reflect.Ptr && o2.IsNil() {
+					c.Fails = append(c.Fails, "second round trip returned nil")
+					return
+				}
+				for _, g := range names {
+					a, b := o.Elem().FieldByName(g), o2.Elem().FieldByName(g)
+					if !eqValue(a, b) {
+						c.Fails = append(c.Fails, fmt.Sprintf("after editing %s on an already converted value, field %s: %v became %v", f, g, fmtVal(a), fmtVal(b)))
+					}
+				}
+			}()
+			out = append(out, c)
+		}
 		// present-but-empty slices are values too
 		for _, f := range names {
 			fv := t.mk().Elem().FieldByName(f)
